@@ -13,3 +13,4 @@ pub mod catalog;
 pub mod appgen;
 pub mod tuples_gen;
 pub mod engines;
+pub mod fuzz;
